@@ -143,7 +143,7 @@ def mon_reactions(ctx, conn):
                     A = Allowed(ok=True)
             elif s0 == IDLE:
                 if typ == 1:
-                    if cur_sym in ("T", "Tc") and eh:      # a block without pseudo-headers is not a request
+                    if cur_sym in ("T", "Tc", "Tn") and eh:      # a block without pseudo-headers is not a request
                         A = Allowed(stream=[PROTOCOL] + ([REFUSED] if at_limit else []))
                         key += ":malformed-message"
                     else:
@@ -174,8 +174,10 @@ def mon_reactions(ctx, conn):
                         A = Allowed(ok=True)
                         key += ":trailers" + ("" if eh else "-continued")
                     else:
+                        # 8.1: a second block must end the stream; a malformed request (8.1.2.6) is a stream error, which
+                        # the server gives once the block is decoded (a block going on in CONTINUATION: connection error)
                         A = Allowed(stream=[PROTOCOL])
-                        key += ":no-end-stream"
+                        key += ":no-end-stream" + ("" if eh else "-continued")
                 elif typ == 0:
                     A = Allowed(ok=True) if s0 == OPEN else Allowed(stream=[STREAM_CLOSED])
                 elif typ == 3:
